@@ -373,6 +373,12 @@ def replay(cand, focus="C14"):
             full = idx + [i for i in range(N) if i not in idx]
             return np.array(full[:int(size)], dtype=int)
 
+        def permutation(self, x):
+            full = idx + [i for i in range(N) if i not in idx]
+            n = x if isinstance(x, (int, np.integer)) else len(x)
+            full = np.array(full[:n], dtype=int)
+            return full if isinstance(x, (int, np.integer)) else np.asarray(x)[full]
+
     FakeHelper.evaluated = []
     rng = ReplayRng()
     helper = FakeHelper()
